@@ -48,6 +48,40 @@ def run_extractor():
     return rc == 0, out.strip(), status
 
 
+def run_codegen():
+    """re-translate the pure function bodies of /repo/src into lean/BEI/Gen/Code/*.lean (tools/codegen.py);
+    -> {unit: {"status": "translated" | "untranslated", "reason": .., "properties": [..]}}"""
+    rc, out = sh([sys.executable, os.path.join(VERIF, "tools", "codegen.py"), "--json"])
+    try:
+        return json.loads(out.strip().splitlines()[-1])
+    except Exception:
+        raise BrokenCheck("tools/codegen.py crashed:\n" + out[-2000:])
+
+
+def bridge_theorem_names(unit):
+    p = os.path.join(LEAN, "BEI", "Bridge", f"{unit}.lean")
+    src = strip_comments(open(p).read())
+    ns = re.search(r"^namespace\s+(\S+)", src, flags=re.M).group(1)
+    return [f"{ns}.{m}" for m in re.findall(r"^theorem\s+([\w.'?!]+)", src, flags=re.M)]
+
+
+def audit_bridge(unit, workdir):
+    """#print axioms for every bridge theorem of the unit"""
+    names = bridge_theorem_names(unit)
+    os.makedirs(workdir, exist_ok=True)
+    f = os.path.join(workdir, f"AuditBridge{unit}.lean")
+    with open(f, "w") as h:
+        h.write(f"import BEI.Bridge.{unit}\n")
+        for n in names:
+            h.write(f"#print axioms {n}\n")
+    rc, out = sh(["lake", "env", "lean", f], cwd=LEAN, timeout=1800)
+    res = {}
+    for m in re.finditer(r"'([^']+)' (does not depend on any axioms|depends on axioms: \[([^\]]*)\])", out.replace("\n", " ")):
+        ax = [] if m.group(3) is None else [a.strip() for a in m.group(3).split(",") if a.strip()]
+        res[m.group(1)] = ax
+    return {n: res.get(n) for n in names}
+
+
 def strip_comments(src):
     src = re.sub(r"/-.*?-/", "", src, flags=re.S)
     return re.sub(r"--[^\n]*", "", src)
